@@ -354,6 +354,13 @@ func c18Chunks(c *Ctx, r *Report, rule string) {
 				} else {
 					got = append(got, -1)
 				}
+				wantT := int64(0xFF)
+				if i == 0 {
+					wantT = 0x06
+				}
+				if t := p.Heap[ch.Desc+".Type"]; !(t.Known && t.N == wantT) {
+					problems = append(problems, fmt.Sprintf("payload=%d: chunk %d is serialised with type %s, the chunk format says %#x", n, i, t.Desc, wantT))
+				}
 			}
 		}
 		want := split(n)
